@@ -525,10 +525,16 @@ func (s *SymDense) ScaleSym(f float64, a Symmetric) {
 // the result in-place into the receiver. The resulting matrix size is
 // len(set)×len(set). Specifically, at the conclusion of SubsetSym,
 // s.At(i, j) equals a.At(set[i], set[j]). Note that the supplied set does not
-// have to be a strict subset, dimension repeats are allowed.
+// have to be a strict subset, dimension repeats are allowed. SubsetSym panics
+// with ErrIndexOutOfRange if an element of set is not a valid index of a.
 func (s *SymDense) SubsetSym(a Symmetric, set []int) {
 	n := len(set)
 	na := a.SymmetricDim()
+	for _, v := range set {
+		if v < 0 || na <= v {
+			panic(ErrIndexOutOfRange)
+		}
+	}
 	s.reuseAsNonZeroed(n)
 	var restore func()
 	if a == s {
